@@ -361,10 +361,13 @@ func ParseStacks(dump string) []Goroutine {
 	return res
 }
 
+// isHarnessInfra recognises goroutines that are always there and never part
+// of a case: the worker's watchdog, the runtime's signal goroutines and the two
+// permanent badwolf goroutines (blank node id producer, tracer consumer).
 func isHarnessInfra(g Goroutine) bool {
-	return strings.Contains(g.Stack, "bwverif/rt.RunWorker.func") || strings.Contains(g.Stack, "bwverif/rt.AllStacks") ||
+	return strings.Contains(g.Stack, "bwverif/rt.RunWorker.func1(") || strings.Contains(g.Stack, "bwverif/rt.AllStacks") ||
 		strings.Contains(g.Stack, "os/signal.") || strings.Contains(g.Stack, "runtime.ensureSigM") ||
-		strings.Contains(g.Stack, "triple/node.init.0.func1")
+		strings.Contains(g.Stack, "triple/node.init.0.func1") || strings.Contains(g.Stack, "bql/planner/tracer.init.0.func1")
 }
 
 // AllBlocked says whether every goroutine apart from the harness's own
